@@ -48,6 +48,9 @@ CHECKS = {
  'C20': ('Hypothesis-generated quality vectors / parameters per primitive; numpy.random interposer captures the p= vector and the scale/size arguments; differential against a long-double softmax reference; metamorphic constant shift; call sequences on one Mechanism object',
          'Generated-input search over all selection primitives in mechanism.py, mst.py, adaptive_grid.py, mwem+pgm.py and the noise helpers/samplers; probabilities compared in log space with a magnitude-aware tolerance.',
          'autodp calibrator replaced by a recording test double; eps=inf only with sensitivity 1 (the only way callers use it); permute_and_flip and the generalized mechanism score transform are outside the statement.'),
+ 'C11': ('Hypothesis-generated models / row counts / methods / numpy seeds vs brute-force joint; rows-independent rounding bound derived along the generation order; Hoeffding bound for sampling; two generations per model object',
+         'Generated-input search: validity predicate on the data frame (rows, columns, ranges, no record in a zero-probability cell of any clique or the joint), rounding-mode count error within a rigorous bound that does not grow with rows (checked at two row counts two decades apart), sampling mode within a 1e-12 union bound.',
+         'Trusts the brute-force joint and the bound derivation in DESIGN.md (C11); numpy global RNG seeded from the case.'),
 }
 NOT_YET = 'check not built yet (work in progress in this session); see DESIGN.md for the planned check'
 
